@@ -82,7 +82,7 @@ def run(cfg, observers, cpus=4, ram=40, da=1, db=1, dc=1, ma=None, mb=None, pa=3
     tps = cfg.get("tps", 1)
     K = cfg["K"]
     params = dict(scheduler_algo=algo, num_pools=cfg.get("pools", 1), cpus_per_pool=cpus,
-                  ram_gb_per_pool=ram, ticks_per_second=tps,
+                  ram_gb_per_pool=(ram * cfg["ram_scale"] if "ram_scale" in cfg else ram), ticks_per_second=tps,
                   multi_operator_containers=cfg.get("multi", True),
                   allow_memory_overcommit=cfg.get("oc", False), duration=K / tps)
     w = World()
